@@ -71,58 +71,69 @@ def configs(tier):
     q = tier == "quick"
     c = []
     if q:
-        for lc, ls in MSG_PAIRS:
-            t = has_tls(lc, ls)
-            # D=2 on every pair: one-way + close in both directions, both directions + close, two connections
-            for script in ("R1s", "R2s", "R3", "M1"):
+        cheap = (("ux", "tcp"), ("tcp", "ux"), ("utls", "ux"))
+        for lc, ls in cheap:
+            # D=2: one-way + close in either direction, both directions + close, two connections, concurrent two-way
+            for script in ("R1s", "R2s", "R3", "M1", "R4", "R6s"):
                 c.append((P(lc, ls, script, MENU_CORE), 2))
-            # full sizes (65535) and concurrent two-way traffic
-            c.append((P(lc, ls, "R1"), 1))
-            c.append((P(lc, ls, "R4" if not t else "R4s", MENU_CORE), 1 if t else 2))
-            c.append((P(lc, ls, "R6s", MENU_CORE), 1 if t else 2))
-        for lc, ls in BS_PAIRS:
-            for script in ("B1", "B2", "B3", "B4"):
-                c.append((P(lc, ls, script, MENU_CORE), 2))
-            c.append((P(lc, ls, "M1", MENU_CORE), 1 if has_tls(lc, ls) else 2))
+            c.append((P(lc, ls, "R1"), 1))          # 65535-byte messages, full menu
+        # pairs with a TLS leg: D=2 where the handshake leaves few free schedules, D=1 elsewhere
+        for script, d in (("R1s", 2), ("R2s", 2), ("R3", 2), ("M1", 1), ("R1", 1), ("R4s", 1), ("R6s", 1)):
+            c.append((P("tcp", "tls", script, MENU_CORE), d))
+        for script, d in (("R1s", 2), ("R2s", 1), ("R3", 1), ("M1", 1), ("R1", 1), ("R4s", 1), ("R6s", 1)):
+            c.append((P("tls", "tcp", script, MENU_CORE), d))
+        for script, d in (("B1", 2), ("B2", 2), ("B3", 1), ("B4", 2), ("M1", 1)):
+            c.append((P("btcp", "btls", script, MENU_CORE), d))
+        for script, d in (("B1", 2), ("B2", 2), ("B3", 1), ("B4", 1), ("M1", 1)):
+            c.append((P("btls", "btcp", script, MENU_CORE), d))
+        for script in ("B1", "B2", "B3", "B4", "M1"):
+            c.append((P("btcp", "btcp", script), 2))
         # one level deeper where it is cheap
         c.append((P("ux", "tcp", "R1s", MENU_CORE, dev="relay"), 3))
-        c.append((P("ux", "tcp", "R3", MENU_CORE, dev="relay"), 3))
-        for script in ("B1", "B2", "B3", "B4"):
-            c.append((P("btcp", "btcp", script, MENU_CORE), 3))
-        c.append((P("tcp", "tcp", "R1s", MENU_CORE, dev="relay"), 3))
+        c.append((P("btcp", "btcp", "B2", MENU_CORE), 3))
+        c.append((P("btcp", "btcp", "B4", MENU_CORE), 3))
         c.append((P("tcp", "tcp", "R1", gran="api"), 1, "asan"))
         return c
     # thorough
-    for lc, ls in MSG_PAIRS + (("tcp", "tcp"),):
-        t = has_tls(lc, ls)
+    cheap = (("ux", "tcp"), ("tcp", "ux"), ("utls", "ux"), ("tcp", "tcp"))
+    for lc, ls in cheap:
         for script in ("R1s", "R2s", "R3", "R5"):
+            c.append((P(lc, ls, script), 2))                              # full menu, deviations anywhere
+            c.append((P(lc, ls, script, MENU_CORE), 3))                   # core menu, deviations anywhere
+        for script in ("R1", "R2", "R6"):                                 # 65535-byte messages
             c.append((P(lc, ls, script), 2))
-            c.append((P(lc, ls, script, MENU_CORE, dev="relay"), 3))
-        for script in ("R1", "R2", "R6"):
-            c.append((P(lc, ls, script), 1 if t else 2))
-        c.append((P(lc, ls, "R4", MENU_CORE), 2))
-        c.append((P(lc, ls, "R6s", MENU_CORE), 2))
-        for script in ("M1", "M3"):
+        for script in ("R4", "R6s", "M1", "M3"):
             c.append((P(lc, ls, script, MENU_CORE), 2))
-        if ls in ("tcp", "tls"):
-            c.append((P(lc, ls, "M2", MENU_CORE), 1 if t else 2))
-        c.append((P(lc, ls, "R3", MENU_CORE, gran="api"), 2))
-    for lc, ls in BS_PAIRS:
-        t = has_tls(lc, ls)
-        for script in ("B1", "B2", "B3", "B4"):
-            c.append((P(lc, ls, script), 2))
-            c.append((P(lc, ls, script, MENU_CORE, dev="relay"), 3))
-        c.append((P(lc, ls, "M1", MENU_CORE), 2))
-    # deepest on the cheapest pairs
-    for script in ("R1s", "R2s"):
-        c.append((P("ux", "tcp", script, MENU_CORE, dev="relay"), 4))
-        c.append((P("tcp", "tcp", script, MENU_CORE, dev="relay"), 4))
-    for script in ("B1", "B2", "B4"):
-        c.append((P("btcp", "btcp", script, MENU_CORE, dev="relay"), 4))
+        if ls == "tcp":
+            c.append((P(lc, ls, "M2", MENU_CORE), 2))
+        c.append((P(lc, ls, "R3", MENU_CORE, gran="api"), 2))              # a scheduling point before every relay XCM call
+    for script, d, dev in (("R1s", 2, "all"), ("R2s", 2, "all"), ("R3", 2, "all"), ("R5", 2, "all"), ("M1", 2, "all"),
+                           ("R1", 1, "all"), ("R2", 1, "all"), ("R4s", 2, "relay"), ("R6s", 2, "relay"), ("M2", 1, "all"),
+                           ("R1s", 3, "relay"), ("R2s", 3, "relay")):
+        c.append((P("tcp", "tls", script, MENU_CORE, dev=dev), d))
+    for script, d, dev in (("R1s", 2, "all"), ("R2s", 2, "all"), ("R3", 2, "relay"), ("R5", 2, "relay"), ("M1", 2, "relay"),
+                           ("R1", 1, "all"), ("R2", 1, "all"), ("R4s", 2, "relay"), ("R6s", 2, "relay"), ("M2", 1, "all"),
+                           ("R1s", 3, "relay")):
+        c.append((P("tls", "tcp", script, MENU_CORE, dev=dev), d))
+    for script in ("B1", "B2", "B3", "B4"):
+        c.append((P("btcp", "btcp", script), 3))
+    c.append((P("btcp", "btcp", "M1"), 2))
+    for script, d, dev in (("B1", 2, "all"), ("B2", 2, "all"), ("B3", 2, "all"), ("B4", 2, "all"), ("M1", 2, "relay"),
+                           ("B1", 3, "relay"), ("B2", 3, "relay")):
+        c.append((P("btcp", "btls", script, MENU_CORE, dev=dev), d))
+    for script, d, dev in (("B1", 2, "all"), ("B2", 2, "all"), ("B3", 2, "relay"), ("B4", 2, "relay"), ("M1", 1, "all"),
+                           ("B1", 3, "relay")):
+        c.append((P("btls", "btcp", script, MENU_CORE, dev=dev), d))
     # sanitizer build
     for lc, ls, script in (("tcp", "tcp", "R1"), ("ux", "tcp", "R3"), ("tcp", "tls", "R1s"), ("tls", "tcp", "R2s"),
                            ("btcp", "btls", "B2"), ("tcp", "tcp", "M1"), ("utls", "ux", "R4")):
         c.append((P(lc, ls, script), 1, "asan"))
+    # deepest on the cheapest pairs (deviations on the relay's own calls + all preemptions)
+    for lc, ls in (("ux", "tcp"), ("tcp", "ux"), ("tcp", "tcp")):
+        for script in ("R1s", "R2s"):
+            c.append((P(lc, ls, script, MENU_CORE, dev="relay"), 4))
+    for script in ("B1", "B2", "B4"):
+        c.append((P("btcp", "btcp", script, MENU_CORE, dev="relay"), 4))
     return c
 
 
